@@ -473,7 +473,8 @@ func (w *World) applyMod(st *Step) {
 				}
 				adds := g.L("adds", leaves)
 				if in.nohash {
-					proof = utreexo.Proof{Targets: tg}
+					// (an empty slice whose spare capacity is the caller's)
+					proof = utreexo.Proof{Targets: tg, Proof: g.H("proof.Proof (no hashes)", nil)}
 				}
 				err = in.acc().Modify(adds, dels, proof)
 			case KMapPart:
@@ -620,7 +621,7 @@ func (w *World) applyUndo(st *Step) {
 		pan := protect(func() {
 			up := utreexo.Proof{Targets: tg, Proof: pf}
 			if in.nohash {
-				up = utreexo.Proof{Targets: tg}
+				up = utreexo.Proof{Targets: tg, Proof: g.H("proof.Proof (no hashes)", nil)}
 			}
 			err = in.acc().Undo(uint64(st.K), up, dh, pr)
 		})
